@@ -402,6 +402,10 @@ Section Sound.
   Definition ST {A} (Q : list token -> Prop) (r : A * pst) : Prop :=
     exists l', AT l' (snd r) /\ Q l'.
 
+  (* result of one step of parser.continuation *)
+  Definition CS (l : list token) (r : option (node * pst)) : Prop :=
+    match r with Some p => ST (rK l) p | None => True end.
+
   Ltac normE E :=
     try apply negb_is_false in E; try apply is_true in E;
     try rewrite ct_mk in E; try rewrite nt_mk in E; cbn [hd tl] in E.
@@ -415,7 +419,7 @@ Section Sound.
     | _ => idtac
     end.
 
-  Ltac branch E := normE E; try tok E; try congruence.
+  Ltac branch E := cbn [negb] in E; try discriminate E; normE E; try tok E; try congruence.
 
   Ltac unpack a HH :=
     lazymatch type of HH with
@@ -442,6 +446,8 @@ Section Sound.
       | |- opost _ (Panic _) => exact I
       | |- opost _ OutOfFuel => exact I
       | |- opost (ST _) (Ok _) => leaf
+      | |- opost (CS _) (Ok None) => exact I
+      | |- opost (CS _) (Ok (Some _)) => cbn [opost CS]; leaf
       | |- opost _ (bind (bind _ _) _) => rewrite bind_assoc
       | |- opost _ (bind (if ?c then _ else _) _) =>
           let E := fresh "E" in destruct c eqn:E; branch E
@@ -619,5 +625,232 @@ Section Sound.
       cbn [let_loop]. unfold unexpected_curr, unexpected_next. cbv zeta. go.
       all: eauto using BND_one, BND_cons.
     Qed.
+
+    (* after "(": function-arg *( "," function-arg ) ")" *)
+    Definition ARG (l l' : list token) : Prop :=
+      exists c, R gArgs1 l (c :: l') /\ ttyp c = TCloseParen.
+    Lemma ARG_one l c l' : R gArg l (c :: l') -> ttyp c = TCloseParen -> ARG l l'.
+    Proof. intros. exists c. split; [apply rArgs1_one|]; assumption. Qed.
+    Lemma ARG_cons l c l1 l' : R gArg l (c :: l1) -> ttyp c = TComma -> ARG l1 l' -> ARG l l'.
+    Proof. intros H1 H2 (c' & H3 & H4). exists c'. split; [eapply rArgs1_cons; eassumption|assumption]. Qed.
+
+    Hint Resolve ARG_one ARG_cons rArg_expr rArg_ref : gram.
+
+    Lemma var_args_loop_post : forall k acc l, valid l ->
+      opost (ST (ARG l)) (var_args_loop rec k acc (mkst l)).
+    Proof.
+      induction k as [|k IH]; intros acc l Hv; [exact I|].
+      cbn [var_args_loop]. unfold unexpected_curr. cbv zeta. go.
+      all: eauto with gram.
+    Qed.
+
+    Ltac callee ::=
+      first [ apply advance_post; assumption
+            | apply advance2_post; assumption
+            | apply expr_post; assumption
+            | apply rec_cont; assumption
+            | apply index_post; assumption
+            | apply projection_post; assumption
+            | apply filter_post; assumption
+            | apply select_array_loop_post; assumption
+            | apply select_object_loop_post; assumption
+            | apply let_loop_post; assumption
+            | apply var_args_loop_post; assumption
+            | match goal with
+              | |- opost _ (parse_quoted_identifier _) => apply opost_triv
+              | |- opost _ (parse_json_literal _) => apply opost_triv
+              end ].
+
+    (* after "let": bindings "in" expression *)
+    Definition LET (l l' : list token) : Prop :=
+      exists i l1, R gBindings l (i :: l1) /\ ttyp i = TIn /\ R gE l1 l'.
+
+    Lemma let_post l : valid l -> opost (ST (LET l)) (let_ rec f (mkst l)).
+    Proof.
+      intros Hv. unfold let_. go.
+      destruct HQ as (i & H1 & H2). exists i. eexists. repeat split; eassumption.
+    Qed.
+
+    Lemma parse_args_post ap name l : valid l ->
+      opost (ST (ARG l)) (parse_args rec f ap name (mkst l)).
+    Proof.
+      intros Hv. unfold parse_args, check_not_close, end_args, need_comma, opt_more, unexpected_curr.
+      destruct ap; go.
+      all: eauto 12 with gram.
+    Qed.
+
+    Ltac callee ::=
+      first [ apply advance_post; assumption
+            | apply advance2_post; assumption
+            | apply expr_post; assumption
+            | apply rec_cont; assumption
+            | apply index_post; assumption
+            | apply projection_post; assumption
+            | apply filter_post; assumption
+            | apply select_array_loop_post; assumption
+            | apply select_object_loop_post; assumption
+            | apply let_post; assumption
+            | apply parse_args_post; assumption
+            | match goal with
+              | |- opost _ (parse_quoted_identifier _) => apply opost_triv
+              | |- opost _ (parse_json_literal _) => apply opost_triv
+              end ].
+
+    Lemma function_post t o l :
+      ttyp t = TUnquotedIdentifier -> ttyp o = TOpenParen -> valid (t :: o :: l) ->
+      opost (ST (R gCall (t :: o :: l))) (function rec f (mkst (t :: o :: l))).
+    Proof.
+      intros Ht Ho Hv. unfold function. cbv zeta. go.
+      destruct HQ as (c & H1 & H2). eapply rCall_intro; eassumption.
+    Qed.
+
+    Lemma wrap_slice_projection_post n project l : valid l ->
+      opost (ST (rK l)) (wrap_slice_projection rec n project (mkst l)).
+    Proof. intros Hv. unfold wrap_slice_projection. go; [assumption|apply rK_nil]. Qed.
+
+    Ltac callee ::=
+      first [ apply advance_post; assumption
+            | apply advance2_post; assumption
+            | apply expr_post_full; assumption
+            | apply rec_cont; assumption
+            | apply index_post; assumption
+            | apply projection_post; assumption
+            | apply filter_post; assumption
+            | apply select_array_loop_post; assumption
+            | apply select_object_loop_post; assumption
+            | apply let_post; assumption
+            | apply function_post; assumption
+            | apply wrap_slice_projection_post; assumption
+            | match goal with
+              | |- opost _ (parse_quoted_identifier _) => apply opost_triv
+              | |- opost _ (parse_json_literal _) => apply opost_triv
+              end ].
+
+    Lemma IDX_use o l l' : ttyp o = TOpenSqBrace -> IDX l l' -> R gBracket (o :: l) l'.
+    Proof. intros H1 H2. apply H2, H1. Qed.
+    Lemma FLT_use o l l' : ttyp o = TFilter -> FLT l l' -> R gBracket (o :: l) l'.
+    Proof. intros H1 (c & H2 & H3). eapply rBracket_filter; eassumption. Qed.
+    Lemma LST_use o l l' : ttyp o = TOpenSqBrace -> LST l l' -> R gMList (o :: l) l'.
+    Proof. intros H1 (c & H2 & H3). eapply rMList_intro; eassumption. Qed.
+    Lemma HSH_use o l l' : ttyp o = TOpenBrace -> HSH l l' -> R gMHash (o :: l) l'.
+    Proof. intros H1 (c & H2 & H3). eapply rMHash_intro; eassumption. Qed.
+    Lemma LET_use t l l' : ttyp t = TLet -> LET l l' -> R gE (t :: l) l'.
+    Proof. intros H1 (i & l1 & H2 & H3 & H4). eapply rE_let; eassumption. Qed.
+    Lemma rDotRhs_ident t l : ident_t (ttyp t) = true -> R gDotRhs (t :: l) l.
+    Proof. intros H. exists [t]. split; [reflexivity|]. left. eauto. Qed.
+    Lemma rDotRhs_call l l' : R gCall l l' -> R gDotRhs l l'.
+    Proof. intros (c & -> & H). exists c. split; [reflexivity|right; assumption]. Qed.
+
+    Ltac tt :=
+      cbn [hd];
+      match goal with H : ttyp ?t = _ |- _ (ttyp ?t) = true => rewrite H; reflexivity end.
+    Hint Extern 1 (_ (ttyp _) = true) => tt : gram.
+    Hint Resolve EX_E rE_atom rE_paren rE_unary rE_bracket rBracket_star rBracket_flatten
+      rE_list rE_hash rE_call IDX_use FLT_use LST_use HSH_use LET_use
+      rDotRhs_ident rDotRhs_call
+      rK_nil rK_bin rK_sub rK_br rK_dot rSub_list_star rSub_hash rSub_list rSub_star : gram.
+
+    (* parser.primaryExpression *)
+    Definition PR (l l' : list token) : Prop :=
+      R gE l l' /\ (ident_t (ttyp (hd tEnd l)) = true -> R gDotRhs l l').
+
+    Ltac noident :=
+      let Hid := fresh "Hid" in
+      intros Hid; cbn [hd] in Hid;
+      match goal with H : ttyp ?t = _ |- _ =>
+        match type of Hid with context [ttyp t] => rewrite H in Hid; try discriminate Hid end end.
+
+    Lemma primary_post l : valid l -> opost (ST (PR l)) (primary rec f (mkst l)).
+    Proof.
+      intros Hv. unfold primary, select_array, select_object, unexpected_curr. cbv zeta. go.
+      all: split; [|noident; eauto with gram].
+      all: first [ solve [eauto 8 with gram]
+                 | eapply rK_E; [eassumption|]; solve [eauto 8 with gram] ].
+    Qed.
+
+    Lemma cont_step_post node p l : valid l -> opost (CS l) (cont_step rec f node p (mkst l)).
+    Proof.
+      intros Hv. unfold cont_step, select_array, select_object, unexpected_curr. cbv zeta.
+      destruct (ct (mkst l)) eqn:Ec; branch Ec; cbn [bin_of]; go.
+      all: eauto 8 with gram.
+    Qed.
+
+    Lemma run_body_post c l : valid l -> opost (RUN c l) (run_body rec f c (mkst l)).
+    Proof.
+      intros Hv. destruct c as [prec|node prec]; cbn [run_body RUN].
+      - eapply opost_bind; [apply primary_post; assumption|].
+        intros [n st1] (l1 & [Hs Hv1] & H1 & H2). cbn [snd] in Hs. subst st1.
+        eapply opost_mono; [apply rec_cont; assumption|].
+        intros [n2 st2] (l2 & Hs & H3). exists l2. split; [assumption|].
+        exists l1. repeat split; assumption.
+      - assert (N : opost (ST (rK l)) (Ok (node, mkst l))).
+        { exists l. split; [split; [reflexivity|assumption]|apply rK_nil]. }
+        destruct (precedence (ct (mkst l)) >? prec); [|exact N].
+        eapply opost_bind; [apply cont_step_post; assumption|].
+        intros [[n st1]|] H; [|exact N].
+        destruct H as (l1 & [Hs Hv1] & H1). cbn [snd] in Hs. subst st1.
+        eapply opost_mono; [apply rec_cont; assumption|].
+        intros [n2 st2] (l2 & Hs & H3). exists l2. split; [assumption|].
+        eapply rK_trans; eassumption.
+    Qed.
   End Level.
+
+  Lemma run_post : forall fuel c l, valid l -> opost (RUN c l) (run fuel c (mkst l)).
+  Proof.
+    induction fuel as [|f IH]; intros c l Hv; [exact I|].
+    cbn [run]. apply run_body_post; [exact IH|assumption].
+  Qed.
 End Sound.
+
+(* ================================================================== *)
+(* Soundness                                                           *)
+(* ================================================================== *)
+
+Lemma parse_items_post last toks fuel :
+  (last = ITok tEnd \/ forall t, last <> ITok t) ->
+  Forall (fun t => ttyp t <> TEnd) toks ->
+  opost (fun _ => last = ITok tEnd /\ gE toks) (parse_items fuel (map ITok toks ++ [last])).
+Proof.
+  intros Hlast Hne. unfold parse_items.
+  eapply opost_bind; [apply pull_tail, Hlast|].
+  intros [t1 r1] (H1 & H2 & H3). cbn [fst snd] in *. subst.
+  eapply opost_bind; [apply pull_tail, Hlast|].
+  intros [t2 r2] (H1 & H2 & H4). cbn [fst snd] in *. subst.
+  assert (Hv : valid last toks).
+  { destruct H3 as [H3|H3]; [left; assumption|]. destruct H4 as [H4|H4]; [left; assumption|].
+    right. destruct toks as [|a [|b r]]; cbn in *; try congruence; lia. }
+  eapply opost_bind; [apply (run_post last Hlast fuel (CExpr 1) toks Hv)|].
+  intros [[n|] st'] (l' & [Hs Hv'] & HX); [|exact I]. cbn [snd] in Hs. subst st'.
+  destruct (negb (is (ct (mkst last l')) TEnd)) eqn:E; [exact I|].
+  apply negb_is_false in E. rewrite ct_mk in E.
+  apply EX_E in HX. destruct HX as (c & -> & Hc).
+  apply Forall_app in Hne. destruct Hne as [_ Hne].
+  destruct l' as [|t l'].
+  - rewrite app_nil_r. split; [|assumption].
+    destruct Hv' as [Hv'|Hv']; [assumption|cbn in Hv'; lia].
+  - inversion Hne; subst. cbn in E. contradiction.
+Qed.
+
+(* whatever the parser accepts is a sentence of the grammar *)
+Theorem parser_sound : forall (toks : list token) fuel n,
+  Forall (fun t => ttyp t <> TEnd) toks ->
+  parse_items fuel (map ITok toks ++ [ITok (Tok TEnd [])]) = Ok n -> gE toks.
+Proof.
+  intros toks fuel n Hne E.
+  pose proof (parse_items_post (ITok tEnd) toks fuel (or_introl eq_refl) Hne) as H.
+  unfold tEnd in H. rewrite E in H. exact (proj2 H).
+Qed.
+
+Corollary compile_sound : forall s n, parse s = Ok n ->
+  exists toks, lex_all s = map ITok toks ++ [ITok (Tok TEnd [])] /\ gE toks.
+Proof.
+  intros s n E. destruct (lex_all_shape s) as (toks & last & El & Hl & Hne & _).
+  unfold parse in E. rewrite El in E.
+  assert (Hlast : last = ITok tEnd \/ forall t, last <> ITok t).
+  { destruct Hl as [->|[e ->]]; [left; reflexivity|right; discriminate]. }
+  pose proof (parse_items_post last toks (parse_fuel s) Hlast Hne) as H.
+  rewrite E in H. destruct H as [-> H]. exists toks. split; [exact El|exact H].
+Qed.
+
+Print Assumptions parser_sound.
+Print Assumptions compile_sound.
